@@ -168,6 +168,13 @@ bool index_read(zckCtx *zck, char *data, size_t size, size_t max_length) {
             zck->index.first = new;
         prev = new;
     }
+    /* The chunk count in the header must match the entries we actually found,
+     * and there's always at least the dictionary entry */
+    if(count == 0 || (size_t)count != zck->index.count) {
+        set_fatal_error(zck, "Index contains %i chunks, but chunk count is %llu",
+                        count, (long long unsigned) zck->index.count);
+        return false;
+    }
     free(zck->index_string);
     zck->index_string = NULL;
     return true;
